@@ -99,58 +99,37 @@ theorem dinv_srcCopies (rd : Nat → Cell) {vars : Nat → Cell} : ∀ (l : List
             obtain ⟨k', hk', _⟩ := cp.keep b k hh
             rw [hk'] at h1; cases h1
 
-end Nstd.Variant.Deep
-
-namespace Nstd.Variant.Deep
-open Nstd.Variant
 
 theorem seqPay_cells (isArr : Bool) (cs : List Cell) : (seqPay isArr cs).cells = cs := by cases isArr <;> rfl
 theorem seqPay_type (isArr : Bool) (cs : List Cell) : (seqPay isArr cs).type = seqKind isArr := by cases isArr <;> rfl
 theorem seqPay_abs (isArr : Bool) (g : Nat → Val) (cs : List Cell) :
     absPay g (seqPay isArr cs) = seqVal isArr (cs.map (absCell g)) := by cases isArr <;> rfl
 
-/-- typed assignment of a temporary List / Array and the destruction of the temporary -/
-theorem leaf_setSeq {h vars e g c} (rd : Nat → Cell) (hd : Held h vars e g c) (isArr : Bool) (l : List Src)
-    (hs : ∀ s ∈ l, SrcOk rd vars s) (f : Nat) (hf : liveCount h + l.length + 1 < f) :
+/-- The typed `operator=` with a temporary container `p` whose element cells are pending handles, followed
+    by the destruction of the temporary: clone branch or in-place branch, as coded. -/
+theorem setTmp_core {h1 : Heap} {vars e1 g1 c} (hd1 : Held h1 vars e1 g1 c) (p : Pay)
+    (hpend : ∀ x, cellCnt c x + cntCells p.cells x ≤ e1 x)
+    (hok : ∀ d ∈ p.cells, ∀ z, d = .inl z → z.isBoxed = false) (f : Nat) (hf : liveCount h1 + 1 < f) :
     ∃ h' c' g',
-      (match setBoxedCell f (srcCopies rd h l).1 c (seqPay isArr (srcCopies rd h l).2) with
-       | some (s2, c') => (releaseAll f s2 (seqPay isArr (srcCopies rd h l).2).cells).map (fun s3 => (s3, c'))
+      (match setBoxedCell f h1 c p with
+       | some (s2, c') => (releaseAll f s2 p.cells).map (fun s3 => (s3, c'))
        | none => none) = some (h', c') ∧
-      CellStep h vars e g c (seqVal isArr (l.map (srcVal g vars))) (l.length + 1) h' c' g' := by
-  have i := hd.inv
-  obtain ⟨g1, cl⟩ := dinv_srcCopies rd l h e g i hs
-  revert cl
-  generalize srcCopies rd h l = sc
-  obtain ⟨h1, tmp⟩ := sc
-  intro cl
-  simp only at cl ⊢
-  have i1 : DInv h1 vars (fun x => e x + cntCells tmp x) g1 := cl.inv
-  have hd1 : Held h1 vars (fun x => e x + cntCells tmp x) g1 c :=
-    ⟨i1, fun x => by have := hd.pend x; show _ ≤ e x + _; omega, hd.ok⟩
-  have hpv : absPay g1 (seqPay isArr tmp) = seqVal isArr (l.map (srcVal g vars)) := by rw [seqPay_abs, cl.val]
-  rw [seqPay_cells]
-  have htmp_b : ∀ b, handles vars b = 0 → (∃ k, h.heap b = some k) → cntCells tmp b = 0 := by
-    intro b hz hl
-    cases hcz : cntCells tmp b with
-    | zero => rfl
-    | succ n =>
-      have hm := mem_of_cntCells_pos tmp b (by omega)
-      rcases cl.tgt _ hm b rfl with h1' | h1'
-      · omega
-      · obtain ⟨k, hk⟩ := hl; rw [hk] at h1'; cases h1'
-  by_cases hc : cellType h1 c ≠ (seqPay isArr tmp).type ∨ cellRef h1 c > 1
+      CellStep h1 vars (fun x => e1 x - cntCells p.cells x) g1 c (absPay g1 p) 1 h' c' g' := by
+  have i1 := hd1.inv
+  have hlive_tmp : ∀ {h' : Heap} {e' : Nat → Nat} {g' : Nat → Val}, DInv h' vars e' g' → (∀ x, cntCells p.cells x ≤ e' x) →
+      ∀ d ∈ p.cells, CellOk h' d := by
+    intro h' e' g' i' hp' d hdm
+    refine ⟨hok d hdm, ?_⟩
+    intro t ht
+    have := cellCnt_le_of_mem p.cells d t hdm
+    rw [ht] at this; simp [cellCnt_ptr] at this
+    exact live_of_pending i' t (by have := hp' t; omega)
+  by_cases hc : cellType h1 c ≠ p.type ∨ cellRef h1 c > 1
   · -- new block
-    obtain ⟨h2, r2, i2, s2⟩ := dinv_release f h1 _ c i1 hd1.pend (by have := cl.live; omega)
-    have hok2 : ∀ d ∈ (seqPay isArr tmp).cells, CellOk h2 d := by
-      intro d hdm; rw [seqPay_cells] at hdm
-      refine ⟨cl.ok d hdm, ?_⟩
-      intro t ht
-      have := cellCnt_le_of_mem tmp d t hdm
-      rw [ht] at this; simp [cellCnt_ptr] at this
-      have hp := hd.pend t
-      exact live_of_pending i2 t (by show 1 ≤ e t + cntCells tmp t - cellCnt c t; omega)
-    have hcp := dinv_copyPay i2 (seqPay isArr tmp) hok2
-    generalize hcpe : copyPay h2 (seqPay isArr tmp) = cpr at hcp
+    obtain ⟨h2, r2, i2, s2⟩ := dinv_release f h1 _ c i1 hd1.pend (by omega)
+    have hok2 := hlive_tmp i2 (by intro x; have := hpend x; show _ ≤ e1 x - cellCnt c x; omega)
+    have hcp := dinv_copyPay i2 p hok2
+    generalize hcpe : copyPay h2 p = cpr at hcp
     obtain ⟨h3, p2⟩ := cpr
     simp only at hcp
     obtain ⟨i3, a3, sl3, _, _, o3, c3⟩ := hcp
@@ -163,73 +142,64 @@ theorem leaf_setSeq {h vars e g c} (rd : Nat → Cell) (hd : Held h vars e g c) 
       exact live_of_pending i3 t (by show 1 ≤ _ + cntCells p2.cells t; omega)
     have i4 := dinv_alloc i3 p2 hok3 (fun x => Nat.le_add_left _ _)
     have hn3 : h3.next = h1.next := by rw [show h3.next = h2.next from sl3.1, s2.next]
-    have hpend5 : ∀ x, cntCells tmp x ≤ (fun x => (fun x => (fun x => e x + cntCells tmp x) x - cellCnt c x + cntCells p2.cells x) x
-        - cntCells p2.cells x + (if x = h3.next then 1 else 0)) x := by
-      intro x; have := hd.pend x; simp only; omega
-    have hl4 : liveCount (alloc h3 p2).1 ≤ liveCount h + l.length + 1 := by
-      rw [liveCount_alloc i3, liveCount_sameLive sl3]; have := s2.live; have := cl.live; omega
-    obtain ⟨h5, r5, i5, s5⟩ := dinv_releaseAll f tmp _ _ i4 hpend5 (by omega)
+    have hl4 : liveCount (alloc h3 p2).1 ≤ liveCount h1 + 1 := by
+      rw [liveCount_alloc i3, liveCount_sameLive sl3]; have := s2.live; omega
+    obtain ⟨h5, r5, i5, s5⟩ := dinv_releaseAll f p.cells _ _ i4
+      (by intro x; have := hpend x; show _ ≤ e1 x - cellCnt c x + cntCells p2.cells x - cntCells p2.cells x + _; omega) (by omega)
     have hcn : cellCnt c h3.next = 0 := by
       cases hcc : c with
       | null => rfl
       | inl z => rfl
       | ptr t =>
-        obtain ⟨k, hk⟩ := hd.cellOk.2 t hcc
-        have := i.lt_next t k hk; have := cl.next_le
+        obtain ⟨k, hk⟩ := hd1.cellOk.2 t hcc
+        have := i1.lt_next t k hk
         have : ¬ t = h3.next := by rw [hn3]; omega
         simp [cellCnt_ptr, this]
     refine ⟨h5, .ptr h3.next, upd g1 h3.next (absPay g1 p2), ?_, i5.congr ?_, ?_, (by intro z hz; cases hz), ?_, ?_, ?_, ?_⟩
     · simp only [setBoxedCell, hc, if_true, r2, hcpe, alloc_id, r5, Option.map]
     · intro x
-      have := hd.pend x
+      have := hpend x
       simp only [cellCnt_ptr]
       by_cases ex : x = h3.next
       · subst ex; simp only [if_true]; omega
       · have : ¬ h3.next = x := fun y => ex y.symm
         simp only [ex, this, if_false]; omega
-    · simp only [absCell, upd_same]; rw [a3]; exact hpv
+    · simp only [absCell, upd_same]; exact a3
     · intro x hx _
-      have hxl := lt_next_of_ne i x hx
-      have : x ≠ h3.next := by rw [hn3]; have := cl.next_le; omega
-      rw [upd_other _ _ _ _ this]; exact cl.frame x hxl
-    · rw [s5.next, alloc_next, hn3]; have := cl.next_le; omega
-    · rw [s5.next, alloc_next, hn3]; have := cl.next_ge; omega
+      have hxl := lt_next_of_ne i1 x hx
+      have : x ≠ h3.next := by rw [hn3]; omega
+      exact upd_other _ _ _ _ this
+    · rw [s5.next, alloc_next, hn3]; omega
+    · rw [s5.next, alloc_next, hn3]; omega
     · have := s5.live; omega
   · -- in place
-    have ht : cellType h1 c = seqKind isArr := by
-      by_cases e1 : cellType h1 c = (seqPay isArr tmp).type
-      · rw [e1, seqPay_type]
-      · exact absurd (Or.inl e1) hc
+    have ht : cellType h1 c = p.type := by
+      by_cases e1' : cellType h1 c = p.type
+      · exact e1'
+      · exact absurd (Or.inl e1') hc
     have hr : ¬ cellRef h1 c > 1 := fun r => hc (Or.inr r)
-    have hk7 : 7 ≤ seqKind isArr := by cases isArr <;> simp [seqKind]
+    have hk7 : 7 ≤ p.type := by cases p <;> simp [Pay.type]
     cases hcc : c with
     | null => rw [hcc] at ht; simp [cellType] at ht; omega
     | inl y =>
       rw [hcc] at ht
-      have := type_lt_of_not_boxed y (hd.ok y hcc)
+      have := type_lt_of_not_boxed y (hd1.ok y hcc)
       simp [cellType] at ht; omega
     | ptr b =>
       subst hcc
-      obtain ⟨blk0, hb0⟩ := hd.cellOk.2 b rfl
-      obtain ⟨blk, hb, _⟩ := cl.keep b blk0 hb0
+      obtain ⟨blk, hb⟩ := hd1.cellOk.2 b rfl
       have hpos := i1.pos b blk hb
       have href : blk.ref = 1 := by simp [cellRef, hb] at hr; omega
       have hcnt := i1.cnt b blk hb
-      have hpe := hd.pend b
+      have hpe := hpend b
       simp [cellCnt_ptr] at hpe
       have hz : handles vars b = 0 := by omega
       have hsz : stored h1.heap h1.next b = 0 := by omega
-      have htb : cntCells tmp b = 0 := htmp_b b hz ⟨blk0, hb0⟩
-      have heb : e b = 1 := by omega
-      have hok1 : ∀ d ∈ (seqPay isArr tmp).cells, CellOk h1 d := by
-        intro d hdm; rw [seqPay_cells] at hdm
-        refine ⟨cl.ok d hdm, ?_⟩
-        intro t ht'
-        have := cellCnt_le_of_mem tmp d t hdm
-        rw [ht'] at this; simp [cellCnt_ptr] at this
-        exact live_of_pending i1 t (by show 1 ≤ e t + cntCells tmp t; omega)
-      have hcp := dinv_copyPay i1 (seqPay isArr tmp) hok1
-      generalize hcpe : copyPay h1 (seqPay isArr tmp) = cpr at hcp
+      have htb : cntCells p.cells b = 0 := by omega
+      have heb : e1 b = 1 := by omega
+      have hok1 := hlive_tmp i1 (by intro x; have := hpend x; omega)
+      have hcp := dinv_copyPay i1 p hok1
+      generalize hcpe : copyPay h1 p = cpr at hcp
       obtain ⟨h2, p2⟩ := cpr
       simp only at hcp
       obtain ⟨i2, a2, sl2, ps2, ps2', o2, c2⟩ := hcp
@@ -247,7 +217,7 @@ theorem leaf_setSeq {h vars e g c} (rd : Nat → Cell) (hd : Held h vars e g c) 
         have := cellCnt_le_of_mem p2.cells d t hdm
         rw [ht'] at this; simp [cellCnt_ptr] at this
         exact live_of_pending i2 t (by show 1 ≤ _ + cntCells p2.cells t; omega)
-      have hp2b : cntCells p2.cells b = 0 := by rw [c2 b, seqPay_cells]; exact htb
+      have hp2b : cntCells p2.cells b = 0 := by rw [c2 b]; exact htb
       have i3 := dinv_setPay i2 b blk2 hb2 hz hs2 p2 hok2 (fun x => by show _ ≤ _ + cntCells p2.cells x + _; omega) hp2b
       have hl3 : liveCount (setPay h2 b p2) = liveCount h1 := by
         rw [liveCount_sameLive (h := h2)]
@@ -260,32 +230,225 @@ theorem leaf_setSeq {h vars e g c} (rd : Nat → Cell) (hd : Held h vars e g c) 
           · simp [upd_other _ _ _ _ ex]
       have hn3 : (setPay h2 b p2).next = h1.next := by simp only [setPay, hb2]; exact sl2.1
       obtain ⟨h4, r4, i4, s4⟩ := dinv_releaseAll f blk2.pay.cells _ _ i3
-        (by intro x; show _ ≤ _ + cntCells blk2.pay.cells x - _; have := c2 x; omega)
-        (by rw [hl3]; have := cl.live; omega)
-      obtain ⟨h5, r5, i5, s5⟩ := dinv_releaseAll f tmp _ _ i4
-        (by intro x; have := c2 x; rw [seqPay_cells] at this
-            show _ ≤ e x + cntCells tmp x + cntCells p2.cells x + cntCells blk2.pay.cells x - cntCells p2.cells x - cntCells blk2.pay.cells x
+        (by intro x; show _ ≤ _ + cntCells blk2.pay.cells x - _; have := c2 x; omega) (by rw [hl3]; omega)
+      obtain ⟨h5, r5, i5, s5⟩ := dinv_releaseAll f p.cells _ _ i4
+        (by intro x; have := c2 x; have := hpend x
+            show _ ≤ e1 x + cntCells p2.cells x + cntCells blk2.pay.cells x - cntCells p2.cells x - cntCells blk2.pay.cells x
             omega)
-        (by have := s4.live; rw [hl3] at this; have := cl.live; omega)
+        (by have := s4.live; rw [hl3] at this; omega)
       refine ⟨h5, .ptr b, upd g1 b (absPay g1 p2), ?_, i5.congr ?_, ?_, (by intro z hz'; cases hz'), ?_, ?_, ?_, ?_⟩
       · have hep : blk.pay.cells = blk2.pay.cells := by rw [ep2]
         simp only [setBoxedCell, hc, if_false, hb, hcpe, hep, r4, Option.map, r5]
       · intro x
-        have := c2 x; rw [seqPay_cells] at this
-        have := hd.pend x
-        show e x + cntCells tmp x + cntCells p2.cells x + cntCells blk2.pay.cells x - cntCells p2.cells x
-          - cntCells blk2.pay.cells x - cntCells tmp x = e x - cellCnt (.ptr b) x + cellCnt (.ptr b) x
+        have := c2 x
+        have := hpend x
+        show e1 x + cntCells p2.cells x + cntCells blk2.pay.cells x - cntCells p2.cells x
+          - cntCells blk2.pay.cells x - cntCells p.cells x = e1 x - cntCells p.cells x - cellCnt (.ptr b) x + cellCnt (.ptr b) x
         omega
-      · simp only [absCell, upd_same]; rw [a2]; exact hpv
+      · simp only [absCell, upd_same]; exact a2
       · intro x hx hprot
-        have hxl := lt_next_of_ne i x hx
         have : x ≠ b := by
           intro exb; subst exb
           simp only [cellCnt_ptr, if_true] at hprot
           rcases hprot with hp | hp <;> omega
-        rw [upd_other _ _ _ _ this]; exact cl.frame x hxl
-      · rw [s5.next, s4.next, hn3]; exact cl.next_le
-      · rw [s5.next, s4.next, hn3]; have := cl.next_ge; omega
-      · have := s5.live; have := s4.live; rw [hl3] at *; have := cl.live; omega
+        exact upd_other _ _ _ _ this
+      · rw [s5.next, s4.next, hn3]; omega
+      · rw [s5.next, s4.next, hn3]; omega
+      · have := s5.live; have := s4.live; rw [hl3] at *; omega
+
+/-- typed assignment of a temporary List / Array and the destruction of the temporary -/
+theorem leaf_setSeq {h vars e g c} (rd : Nat → Cell) (hd : Held h vars e g c) (isArr : Bool) (l : List Src)
+    (hs : ∀ s ∈ l, SrcOk rd vars s) (f : Nat) (hf : liveCount h + l.length + 1 < f) :
+    ∃ h' c' g',
+      (match setBoxedCell f (srcCopies rd h l).1 c (seqPay isArr (srcCopies rd h l).2) with
+       | some (s2, c') => (releaseAll f s2 (seqPay isArr (srcCopies rd h l).2).cells).map (fun s3 => (s3, c'))
+       | none => none) = some (h', c') ∧
+      CellStep h vars e g c (seqVal isArr (l.map (srcVal g vars))) (l.length + 1) h' c' g' := by
+  have i := hd.inv
+  obtain ⟨g1, cl⟩ := dinv_srcCopies rd l h e g i hs
+  revert cl
+  generalize srcCopies rd h l = sc
+  obtain ⟨h1, tmp⟩ := sc
+  intro cl
+  simp only at cl ⊢
+  have hd1 : Held h1 vars (fun x => e x + cntCells tmp x) g1 c :=
+    ⟨cl.inv, fun x => by have := hd.pend x; show _ ≤ e x + _; omega, hd.ok⟩
+  obtain ⟨h', c', g', r, st⟩ := setTmp_core hd1 (seqPay isArr tmp)
+    (by intro x; rw [seqPay_cells]; have := hd.pend x; show _ ≤ e x + _; omega)
+    (by intro d hdm; rw [seqPay_cells] at hdm; exact cl.ok d hdm) f (by have := cl.live; omega)
+  refine ⟨h', c', g', r, st.inv.congr ?_, ?_, st.ok, ?_, ?_, ?_, ?_⟩
+  · intro x; rw [seqPay_cells]; show e x + cntCells tmp x - cntCells tmp x - _ + _ = _; omega
+  · rw [st.val, seqPay_abs, cl.val]
+  · intro x hx hprot
+    have hxl := lt_next_of_ne i x hx
+    have hlive1 : h1.heap x ≠ none := by
+      cases hh : h.heap x with
+      | none => exact absurd hh hx
+      | some k => obtain ⟨k', hk', _⟩ := cl.keep x k hh; rw [hk']; simp
+    rw [st.frame x hlive1 (by
+      rcases hprot with hp | hp
+      · exact Or.inl hp
+      · refine Or.inr ?_; rw [seqPay_cells]; show _ ≤ e x + cntCells tmp x - cntCells tmp x; omega)]
+    exact cl.frame x hxl
+  · have := st.next_le; have := cl.next_le; omega
+  · have := st.next_ge; have := cl.next_ge; omega
+  · have := st.live; have := cl.live; omega
+
+/-! ### the temporary HashMap: `append(key, value)` overwrites an existing key -/
+
+theorem live_of_handles {h : Heap} {vars e g} (i : DInv h vars e g) (x : Nat) (hx : 1 ≤ handles vars x) :
+    ∃ k, h.heap x = some k := by
+  unfold handles handlesN at hx
+  obtain ⟨v, _, hp⟩ := List.countP_pos_iff.1 (show 0 < List.countP (fun v => isPtrTo (vars v) x) (List.range nslots) by omega)
+  exact i.live v x ((isPtrTo_iff _ _).1 hp)
+
+theorem dinv_tmpMap (rd : Nat → Cell) {vars : Nat → Cell} (f : Nat) : ∀ (m : List (Str × Src)) (h : Heap) (e : Nat → Nat)
+    (g : Nat → Val) (acc : List (Str × Cell)),
+    DInv h vars (fun x => e x + cntCells (acc.map (·.2)) x) g →
+    (∀ d ∈ acc.map (·.2), ∀ z, d = .inl z → z.isBoxed = false) → (∀ q ∈ m, SrcOk rd vars q.2) →
+    liveCount h + m.length < f →
+    ∃ h' acc' g', tmpMap f rd h m acc = some (h', acc') ∧
+      DInv h' vars (fun x => e x + cntCells (acc'.map (·.2)) x) g' ∧
+      acc'.map (fun p => (p.1, absCell g' p.2)) =
+        (m.map (fun q => (q.1, srcVal g vars q.2))).foldl (fun a q => mapInsert a q.1 q.2) (acc.map (fun p => (p.1, absCell g p.2))) ∧
+      (∀ d ∈ acc'.map (·.2), ∀ z, d = .inl z → z.isBoxed = false) ∧ (∀ x, x < h.next → g' x = g x) ∧
+      h.next ≤ h'.next ∧ h'.next ≤ h.next + m.length ∧ liveCount h' ≤ liveCount h + m.length := by
+  intro m
+  induction m with
+  | nil =>
+    intro h e g acc i hok _ _
+    exact ⟨h, acc, g, rfl, i, rfl, hok, fun _ _ => rfl, Nat.le_refl _, by simp, by simp⟩
+  | cons q t ih =>
+    obtain ⟨k, src⟩ := q
+    intro h e g acc i hok hs hf
+    obtain ⟨g1, cp⟩ := dinv_srcCopy rd i src (hs (k, src) (by simp))
+    revert cp
+    generalize hsc : srcCopy rd h src = sc
+    obtain ⟨h1, c⟩ := sc
+    intro cp
+    simp only at cp
+    have hst : ∀ q ∈ t, SrcOk rd vars q.2 := fun q hq => hs q (by simp [hq])
+    -- values of the later sources and of the accumulated cells do not change
+    have hsv : ∀ q ∈ t, srcVal g1 vars q.2 = srcVal g vars q.2 := by
+      intro q _
+      simp only [srcVal]
+      cases q.2 with
+      | lit x => rfl
+      | var w =>
+        simp only [Src.eval]
+        apply absCell_congr
+        intro b hb
+        obtain ⟨kk, hk⟩ := i.live w b hb
+        exact cp.frame b (i.lt_next b kk hk)
+    have hacc : acc.map (fun p => (p.1, absCell g1 p.2)) = acc.map (fun p => (p.1, absCell g p.2)) := by
+      apply List.map_congr_left
+      intro p hp
+      have : absCell g1 p.2 = absCell g p.2 := by
+        apply absCell_congr
+        intro b hb
+        have hm : p.2 ∈ acc.map (·.2) := List.mem_map.2 ⟨p, hp, rfl⟩
+        have := cellCnt_le_of_mem _ p.2 b hm
+        rw [hb] at this; simp [cellCnt_ptr] at this
+        obtain ⟨kk, hk⟩ := live_of_pending i b (by show 1 ≤ e b + _; omega)
+        exact cp.frame b (i.lt_next b kk hk)
+      rw [this]
+    have hstepS : ∀ old, mapGet acc k = some old →
+        (mapPut acc k c).map (fun p => (p.1, absCell g1 p.2)) =
+          mapInsert (acc.map (fun p => (p.1, absCell g p.2))) k (srcVal g vars src) := by
+      intro old hg
+      have := mapInsert_abs g1 acc k c
+      simp only [hg] at this
+      rw [this, hacc, cp.val]
+    have hstepN : mapGet acc k = none →
+        (acc ++ [(k, c)]).map (fun p => (p.1, absCell g1 p.2)) =
+          mapInsert (acc.map (fun p => (p.1, absCell g p.2))) k (srcVal g vars src) := by
+      intro hg
+      have := mapInsert_abs g1 acc k c
+      simp only [hg] at this
+      rw [this, hacc, cp.val]
+    have hfold : ∀ a, (t.map (fun q => (q.1, srcVal g1 vars q.2))).foldl (fun a q => mapInsert a q.1 q.2) a =
+        (t.map (fun q => (q.1, srcVal g vars q.2))).foldl (fun a q => mapInsert a q.1 q.2) a := by
+      intro a; congr 1
+      apply List.map_congr_left
+      intro q hq; rw [hsv q hq]
+    have hcnt_c : ∀ x, cellCnt c x ≤ (fun x => (fun x => e x + cntCells (acc.map (·.2)) x) x + cellCnt c x) x :=
+      fun x => Nat.le_add_left _ _
+    cases hg : mapGet acc k with
+    | some old =>
+      have hold_mem : old ∈ acc.map (·.2) := mem_cells_of_getCell (.map acc) (.mk k) old hg
+      have hcm := fun x => cnt_mapPut acc k c old x hg
+      -- the overwritten element is released (`*it = value`)
+      obtain ⟨h2, r2, i2, s2⟩ := dinv_release f h1 _ old cp.inv
+        (by intro x; have := cellCnt_le_of_mem _ old x hold_mem
+            show _ ≤ e x + cntCells (acc.map (·.2)) x + cellCnt c x; omega)
+        (by have := cp.live; simp only [List.length_cons] at hf; omega)
+      have i2' : DInv h2 vars (fun x => e x + cntCells ((mapPut acc k c).map (·.2)) x) g1 :=
+        i2.congr (by intro x; have := hcm x; have := cellCnt_le_of_mem _ old x hold_mem
+                     show e x + cntCells (acc.map (·.2)) x + cellCnt c x - cellCnt old x = _; omega)
+      have hok1 : ∀ d ∈ (mapPut acc k c).map (·.2), ∀ z, d = .inl z → z.isBoxed = false := by
+        intro d hdm z hz
+        rcases mem_mapPut acc k c d hdm with h' | h'
+        · exact hok d h' z hz
+        · subst h'; exact cp.ok z hz
+      obtain ⟨h', acc', g', r, i', hv, hok', hfr, hn1, hn2, hl⟩ := ih h2 e g1 (mapPut acc k c) i2' hok1 hst
+        (by have := s2.live; have := cp.live; simp only [List.length_cons] at hf; omega)
+      refine ⟨h', acc', g', ?_, i', ?_, hok', ?_, ?_, ?_, ?_⟩
+      · simp only [tmpMap, hsc, hg, r2]; exact r
+      · rw [hv, hfold]; simp only [List.map_cons, List.foldl_cons]
+        rw [hstepS old hg]
+      · intro x hx; rw [hfr x (by rw [s2.next]; have := cp.next_le; omega), cp.frame x hx]
+      · rw [s2.next] at hn1; have := cp.next_le; omega
+      · rw [s2.next] at hn2; have := cp.next_ge; simp only [List.length_cons]; omega
+      · have := s2.live; have := cp.live; simp only [List.length_cons]; omega
+    | none =>
+      have i1' : DInv h1 vars (fun x => e x + cntCells ((acc ++ [(k, c)]).map (·.2)) x) g1 :=
+        cp.inv.congr (by intro x; simp only [List.map_append, List.map_cons, List.map_nil, cntCells_append, cntCells_cons, cntCells_nil]; omega)
+      have hok1 : ∀ d ∈ (acc ++ [(k, c)]).map (·.2), ∀ z, d = .inl z → z.isBoxed = false := by
+        intro d hdm z hz
+        simp only [List.map_append, List.map_cons, List.map_nil, List.mem_append, List.mem_singleton] at hdm
+        rcases hdm with h' | h'
+        · exact hok d h' z hz
+        · subst h'; exact cp.ok z hz
+      obtain ⟨h', acc', g', r, i', hv, hok', hfr, hn1, hn2, hl⟩ := ih h1 e g1 (acc ++ [(k, c)]) i1' hok1 hst
+        (by have := cp.live; simp only [List.length_cons] at hf; omega)
+      refine ⟨h', acc', g', ?_, i', ?_, hok', ?_, ?_, ?_, ?_⟩
+      · simp only [tmpMap, hsc, hg]; exact r
+      · rw [hv, hfold]; simp only [List.map_cons, List.foldl_cons]
+        rw [hstepN hg]
+      · intro x hx; rw [hfr x (by have := cp.next_le; omega), cp.frame x hx]
+      · have := cp.next_le; omega
+      · have := cp.next_ge; simp only [List.length_cons]; omega
+      · have := cp.live; simp only [List.length_cons]; omega
+
+/-- typed assignment of a temporary HashMap and the destruction of the temporary -/
+theorem leaf_setMap (ds : DblSem) {h vars e g c} (rd : Nat → Cell) (hd : Held h vars e g c) (m : List (Str × Src))
+    (hs : ∀ q ∈ m, SrcOk rd vars q.2) (f : Nat) (hf : liveCount h + m.length + 1 < f) :
+    ∃ h' c' g', leafOp f ds rd h c (.set (.map m)) = some (h', c') ∧
+      CellStep h vars e g c (.map (mapOfPairs (m.map (fun q => (q.1, srcVal g vars q.2))))) (m.length + 1) h' c' g' := by
+  have i := hd.inv
+  obtain ⟨h1, tmp, g1, rt, i1, hv, hok, hfr, hn1, hn2, hl⟩ := dinv_tmpMap rd f m h e g [] (i.congr (by intro x; simp [cntCells_nil]))
+    (by intro d hdm; simp at hdm) hs (by omega)
+  have hd1 : Held h1 vars (fun x => e x + cntCells (tmp.map (·.2)) x) g1 c :=
+    ⟨i1, fun x => by have := hd.pend x; show _ ≤ e x + _; omega, hd.ok⟩
+  obtain ⟨h', c', g', r, st⟩ := setTmp_core hd1 (.map tmp)
+    (by intro x; have := hd.pend x; show _ + cntCells (tmp.map (·.2)) x ≤ e x + _; omega) hok f (by omega)
+  refine ⟨h', c', g', ?_, st.inv.congr ?_, ?_, st.ok, ?_, ?_, ?_, ?_⟩
+  · simp only [leafOp, tmpPay, rt, Option.map]; exact r
+  · intro x; show e x + cntCells (tmp.map (·.2)) x - cntCells (tmp.map (·.2)) x - _ + _ = _; omega
+  · rw [st.val]; simp only [absPay, hv, mapOfPairs, List.map_nil]
+  · intro x hx hprot
+    have hxl := lt_next_of_ne i x hx
+    have hlive1 : h1.heap x ≠ none := by
+      rcases hprot with hp | hp
+      · obtain ⟨k, hk⟩ := live_of_handles i1 x hp; rw [hk]; simp
+      · obtain ⟨k, hk⟩ := live_of_pending i1 x (by have := hd.pend x; show 1 ≤ e x + _; omega); rw [hk]; simp
+    rw [st.frame x hlive1 (by
+      rcases hprot with hp | hp
+      · exact Or.inl hp
+      · refine Or.inr ?_; show _ ≤ e x + cntCells (tmp.map (·.2)) x - cntCells (tmp.map (·.2)) x; omega)]
+    exact hfr x hxl
+  · have := st.next_le; omega
+  · have := st.next_ge; omega
+  · have := st.live; omega
 
 end Nstd.Variant.Deep
